@@ -1,4 +1,112 @@
-(* placeholder while the harness is built *)
-From Coq Require Import List NArith.
-From Pcfg Require Import TextFile.
-Theorem C07_placeholder : 1 = 1. Proof. reflexivity. Qed.
+(* C07 - a saved ruleset means the same thing to every tool that loads it.
+   Property theorems only (models: theories/TextFile.v, Counters.v; proofs:
+   TextFileProofs.v, IoFacts.v).  LB / WS / IWS / DZ are the code point classes
+   probed from the running interpreter, check_valid_rejected the code points
+   extracted from lib_trainer/trainer_file_input.py (gen/Consts_gen.v).
+
+   The LAST TWO theorems are side conditions on the current /repo sources; they
+   are stated as the property demands and fail to check while the defects R10
+   (check_valid accepts U+2029) and R11 (OmenScorer ignores the ruleset
+   encoding) are in the tree.  Everything above them checks independently. *)
+From Coq Require Import String Ascii.
+From Coq Require Import List NArith ZArith Bool Floats.
+From Pcfg Require Import ProbAlg F64 TextFile Counters Reader IoCorr TextFileProofs IoFacts.
+From PcfgGen Require Import Consts_gen.
+Import ListNotations.
+
+(* the classes probed from this interpreter have the shape the proofs rely on
+   (LF, CR break lines, TAB does not, LF is stripped, float characters / digits /
+   the $HEX alphabet are neither white space nor line breaks, int() reads ASCII digits) *)
+Theorem C07_probed_classes_ok : classes_ok = true.
+Proof. exact classes_ok_true. Qed.
+
+(* guesser: _load_from_file returns the written (value, probability) list,
+   grouped by consecutive equal probability, no value lost, order kept - also
+   for values with leading/trailing blanks, non-ASCII, non-BMP characters:
+   only TAB and line-break code points are excluded (safe) *)
+Theorem C07_roundtrip_guesser :
+  forall (repr : float -> str) (pfloat : str -> option float) (encb : N -> bool) (onfail : enc_fail)
+         (l : list (str * float)),
+    Forall (fun it => safe (fst it) = true /\ float_ok repr pfloat (snd it)) l ->
+    Forall (fun it => forallb encb (write_line repr it) = true) l ->
+    Forall (fun it => okbF (snd it) = true) l ->
+    load_guesser LB WS pfloat encb onfail (write_file repr l) = Some (group_by_prob l)
+    /\ flat_map gvals (group_by_prob l) = map fst l.
+Proof. exact roundtrip_guesser_inst. Qed.
+
+Theorem C07_roundtrip_scorer :
+  forall (repr : float -> str) (pfloat : str -> option float) (encb : N -> bool) (onfail : enc_fail)
+         (l : list (str * float)),
+    Forall (fun it => safe (fst it) = true /\ float_ok repr pfloat (snd it)) l ->
+    Forall (fun it => forallb encb (write_line repr it) = true) l ->
+    NoDup (map fst l) ->
+    load_scorer LB WS pfloat encb onfail (write_file repr l) = (true, l).
+Proof. exact roundtrip_scorer_inst. Qed.
+
+(* OMEN IP.level / EP.level / CP.level through the guesser's loader ... *)
+Theorem C07_roundtrip_omen_guesser : forall l : list (Z * str), Forall level_item_ok l ->
+  omen_guesser_items LB IWS DZ (write_levels l) = Some l.
+Proof. exact roundtrip_omen_guesser_inst. Qed.
+
+(* ... and through OmenScorer (opened the way the source opens it), given the
+   text it decodes is the text that was written: see the side condition
+   C07_omen_scorer_reads_ruleset_encoding at the end *)
+Theorem C07_roundtrip_omen_scorer : forall l : list (Z * str), Forall level_item_ok l ->
+  omen_scorer_items omen_scorer_codecs_open LB IWS DZ (write_levels l) = Some l.
+Proof. exact roundtrip_omen_scorer_inst. Qed.
+
+Theorem C07_roundtrip_omen_alphabet : forall a : list str, Forall (fun c => safe c = true) a ->
+  load_alphabet LB (write_alphabet a) = a.
+Proof. exact roundtrip_alphabet_inst. Qed.
+
+(* config.ini names exactly the files written, section by section; file names
+   are distinct for distinct keys; what the folders held before is irrelevant *)
+Theorem C07_config_lists_exact : forall (O : numops) (P : pcounters) sens (cov : num O) n sec names,
+  In (sec, names) (config_lists O P) ->
+  exists dir files, In (sec, dir) config_dirs /\ In (dir, files) (save_pcfg_data O P sens cov n) /\
+                    map fst files = names.
+Proof. exact config_lists_exact. Qed.
+
+Theorem C07_file_names_distinct : forall (O : numops) old (cs : list (str * counter O)),
+  NoDup (map fst cs) -> NoDup (map fst (save_indexed old cs)).
+Proof. exact CountersProofs.save_indexed_names_nodup. Qed.
+
+(* the published check_valid (C0 controls, U+0085, U+2028) accepts U+2029, on
+   which the line iteration splits: a value holding it is lost by the guesser,
+   fails the scorer's load and fails the OMEN loader *)
+Theorem C07_refuted_2029 :
+  check_valid rejected_2021 true [97; 98; 99; 8233]%N = true /\ LB 8233%N = true /\
+  load_guesser LB WS pf1 (fun _ => true) EncSkip (write_file rp1 [([8233]%N, 0.5%float)]) = Some [] /\
+  fst (load_scorer LB WS pf1 (fun _ => true) EncSkip (write_file rp1 [([8233]%N, 0.5%float)])) = false /\
+  omen_guesser_items LB IWS DZ (write_levels [(3%Z, [97; 98; 8233]%N)]) = None.
+Proof. exact refuted_2029. Qed.
+
+(* hypotheses satisfiable: a written two-line file with a blank-padded value *)
+Theorem C07_example :
+  load_guesser LB WS pf1 (fun _ => true) EncSkip (write_file rp1 [([32; 97; 32]%N, 0.5%float); ([233; 128512]%N, 0.5%float)])
+  = Some [{| gvals := [[32; 97; 32]%N; [233; 128512]%N]; gprob := 0.5%float |}].
+Proof. vm_compute. reflexivity. Qed.
+
+Print Assumptions C07_roundtrip_guesser.
+Print Assumptions C07_roundtrip_scorer.
+Print Assumptions C07_roundtrip_omen_guesser.
+Print Assumptions C07_roundtrip_omen_scorer.
+Print Assumptions C07_config_lists_exact.
+
+(* ---------------------------------------------------------------- side conditions on the sources *)
+
+(* "No password accepted for training can put a value on disk that the
+   line-oriented format cannot return unchanged": check_valid rejects TAB and
+   every code point str.splitlines / codecs line iteration split on.
+   Finite sweep over the probed list, re-checked on every run. *)
+Theorem C07_linebreaks_rejected : linebreaks_rejected = true.
+Proof. vm_compute. reflexivity. Qed.
+
+(* lifted: every segment of an accepted password is a safe value *)
+Theorem C07_accepted_values_safe :
+  forall p pre s post, accepted p = true -> p = (pre ++ s ++ post)%list -> safe s = true.
+Proof. exact (accepted_values_safe C07_linebreaks_rejected). Qed.
+
+(* OmenScorer decodes IP.level / CP.level with the ruleset encoding *)
+Theorem C07_omen_scorer_reads_ruleset_encoding : omen_scorer_uses_ruleset_encoding = true.
+Proof. reflexivity. Qed.
